@@ -23,11 +23,18 @@ def run(prop, tier, seed):
     p = subprocess.run([REAL_PY, script, 'search', prop, tier, str(seed)], capture_output=True, text=True, env=_env(),
                        cwd=VERIF)
     if p.returncode != 0:
-        return {'summary': {'short': 'crashed', 'stderr': p.stderr[-2000:]}, 'failures': [], 'crashed': True}
+        # the oracle drives the public API only: an uncaught exception there is abnormal library behaviour on some input
+        last = (p.stderr.strip().splitlines() or ['?'])[-1]
+        return {'summary': {'short': 'bounded oracle aborted: %s' % last[:200], 'stderr': p.stderr[-3000:]}, 'crashed': True,
+                'failures': [{'property': prop, 'fn': None, 'what': 'the bounded real-code oracle aborted with an uncaught exception: %s' % last[:300],
+                              'stderr': p.stderr[-3000:], 'input_sha': 'oracle-abort', 'oracle_abort': True}]}
     return json.loads(p.stdout)
 
 
 def replay(prop, failure):
+    if failure.get('oracle_abort'):
+        r = run(prop, 'quick', 0)
+        return not r.get('crashed')
     script = os.path.join(VERIF, 'replay', 'run_real.py')
     p = subprocess.run([REAL_PY, script, 'replay', prop], input=json.dumps(failure), capture_output=True, text=True,
                        env=_env(), cwd=VERIF)
